@@ -51,7 +51,7 @@ IsCanonical(e, N) ==
   /\ (Len(e) > 1 => e[Len(e)].len >= 1)
   /\ N = FullBytes(Len(e) - 1) + e[Len(e)].len
 
-Fulls(k, first) == [i \in 1..k |-> Seg(IF first /\ i = 1 THEN F ELSE P, FALSE)]   \* k full unmarked segments
+Fulls(k) == [i \in 1..k |-> Seg(P, FALSE)]      \* k full unmarked segments behind the first
 
 Init == written = 0 /\ buf = 0 /\ segs = 0 /\ closed = FALSE /\ emitted = <<>>
 
@@ -73,7 +73,7 @@ WriteResult(b0, s0, e0, n, b1, s1, e1) ==
            /\ n - room = k * P + b
            /\ b1 = b
            /\ s1 = s0 + 1 + k
-           /\ e1 = Append(e0, Seg(Cap(s0 + 1), FALSE)) \o Fulls(k, FALSE)
+           /\ e1 = Append(e0, Seg(Cap(s0 + 1), FALSE)) \o Fulls(k)
 
 Write(n) ==
   /\ ~closed
@@ -210,18 +210,18 @@ THEOREM NextInv == Inv /\ [Next]_vars => Inv'
               /\ n - room = k * P + b
               /\ buf' = b
               /\ segs' = segs + 1 + k
-              /\ emitted' = Append(emitted, Seg(Cap(segs + 1), FALSE)) \o Fulls(k, FALSE)
+              /\ emitted' = Append(emitted, Seg(Cap(segs + 1), FALSE)) \o Fulls(k)
       BY <1>1, <2>2 DEF Write, WriteResult
     <3> DEFINE e1 == Append(emitted, Seg(Cap(segs + 1), FALSE))
     <3>2. e1 \in Seq(SegRec) /\ Len(e1) = segs + 1
           /\ \A i \in 1..(segs + 1) : e1[i] = Seg(Cap(i), FALSE)
       BY <2>0, Params DEF Inv, TypeOK, Seg, SegRec, Cap
-    <3>3. Fulls(k, FALSE) \in Seq(SegRec) /\ Len(Fulls(k, FALSE)) = k
-          /\ \A i \in 1..k : Fulls(k, FALSE)[i] = Seg(P, FALSE)
+    <3>3. Fulls(k) \in Seq(SegRec) /\ Len(Fulls(k)) = k
+          /\ \A i \in 1..k : Fulls(k)[i] = Seg(P, FALSE)
       BY Params DEF Fulls, Seg, SegRec
     <3>4. emitted' \in Seq(SegRec) /\ Len(emitted') = segs'
           /\ \A i \in 1..segs' : emitted'[i] = Seg(Cap(i), FALSE)
-      <4>1. emitted' = e1 \o Fulls(k, FALSE)
+      <4>1. emitted' = e1 \o Fulls(k)
         BY <3>1
       <4>2. emitted' \in Seq(SegRec) /\ Len(emitted') = segs + 1 + k
         BY <4>1, <3>2, <3>3
@@ -229,7 +229,7 @@ THEOREM NextInv == Inv /\ [Next]_vars => Inv'
         <5>1. CASE i <= segs + 1
           BY <5>1, <4>1, <3>2, <3>3
         <5>2. CASE i > segs + 1
-          <6>1. emitted'[i] = Fulls(k, FALSE)[i - (segs + 1)] /\ i - (segs + 1) \in 1..k
+          <6>1. emitted'[i] = Fulls(k)[i - (segs + 1)] /\ i - (segs + 1) \in 1..k
             BY <5>2, <4>1, <3>1, <3>2, <3>3, <2>0 DEF Inv, TypeOK
           <6>2. Cap(i) = P
             BY <5>2, <2>0 DEF Cap, Inv, TypeOK
